@@ -251,9 +251,8 @@ def render(t):
     L.append("/-- `eval_binop_teq` / `eval_binop_tne`: result when `teq_val` says true -/")
     L.append("def teqOps : List (String × Bool) := [%s]" % ", ".join('("%s", %s)' % (n, "true" if v else "false") for n, v in t["teq"]))
     L.append("")
-    L.append("/-- sha1 prefix of the comment- and whitespace-free text of every `base` routine (audit trail only) -/")
-    L.append("def baseDigests : List ((Nat × Nat) × String) := [%s]" % ", ".join('((%d, %d), "%s")' % (k[0], k[1], v) for k, v in sorted(t["digests"].items())))
-    L.append("")
+    # the text digests of the base routines are NOT written into the Lean file (a textual change of a routine body would
+    # force a rebuild of every proof); they go to the evidence and are compared with extract/cmp_base_digests.json
     L.append("end Hawk.Cmp.Gen")
     return "\n".join(L) + "\n"
 
